@@ -228,6 +228,22 @@ def build_corpus(rng, n_random):
     seeds.append(bytes(enc.make_network_nack(seeds[0], 150)))
     seeds.append(pitkit.lp_wrap(seeds[2], token=b'\x01\x02\x03\x04'))
     seeds.append(pitkit.lp_wrap(seeds[0], extra=True))
+    # packets with the nested structures the decoders know: key locator (name), forwarding hint, hop limit, final block id,
+    # content type, a certificate (validity period), a link-layer envelope with CachePolicy / NonDiscovery
+    from ndn.security.signer import HmacSha256Signer
+    hm = HmacSha256Signer('/zz/KEY/k1', b'0123456789abcdef')
+    seeds.append(bytes(enc.make_interest('/zz/q', enc.InterestParam(lifetime=2000, nonce=9, hop_limit=3, must_be_fresh=True,
+                                                                     forwarding_hint=[enc.Name.from_str('/zz/hint')]),
+                                         b'pp', signer=hm)))
+    seeds.append(bytes(enc.make_data('/zz/e/seg=3', enc.MetaInfo(content_type=2, freshness_period=10,
+                                                                  final_block_id=enc.Component.from_segment(3)),
+                                     b'key bits', signer=hm)))
+    try:
+        from ndn.app_support.security_v2 import self_sign
+        seeds.append(bytes(self_sign(enc.Name.from_str('/zz/KEY/k2'), b'0' * 32, hm)[1]))
+    except Exception:  # noqa  - a changed tree may not be able to issue it; the other seeds remain
+        pass
+    seeds.append(pitkit.lp_wrap(seeds[-2], extra=True, token=b'\x05'))
     corpus = {}
 
     class _Add:
